@@ -36,7 +36,8 @@ LARGE = ['CCC', 'CCCC', 'CC(C)C', 'CC=C', 'CCO', 'COC', 'OCO', 'C=CC=C',
          # formal charges (the valence filter works on default valences)
          'CS(C)=O', 'C[N+](=O)[O-]', 'C[NH3+]', 'CSC', 'CN', 'CS', 'CP',
          # radicals (a seed may be the radical of another seed)
-         '[CH2]C', '[CH2]', 'C[CH]C', '[OH]', 'C[O]', '[CH2]CO']
+         '[CH2]C', '[CH2]', 'C[CH]C', '[OH]', 'C[O]', '[CH2]CO', '[CH2]C=C',
+         'CCCO']
 
 _st = {}
 
@@ -272,9 +273,12 @@ def small_groups(tier):
     seedsets = [[s] for s in SMALL] + \
         [list(p) for p in itertools.combinations(SMALL, 2)]
     kmax = 3 if tier == 'quick' else 4
+    # rules that can match a species of <= 2 heavy atoms
+    core_rules = ['CC', 'CCanydown', 'CCdown', 'CCup', 'CH', 'CHclosed',
+                  'CO', 'OH']
     for ss in seedsets:
         for k in range(1, kmax + 1):
-            for sub in itertools.combinations(nm.RULE_NAMES, k):
+            for sub in itertools.combinations(core_rules, k):
                 cases = []
                 for perm in itertools.permutations(sub):
                     cases.append({'seeds': ss, 'rules': list(perm),
